@@ -45,7 +45,7 @@ CLAIMED = {
     'C01': dict(
         text='coq/props/C01.v: C01_all_rows_valid — for every sorted reference/query, every list of seed peaks, both strands, all parameters with SU <= 0 < MS, the row built by the model of Aligner.align '
              '(pairing, scoring, factory, chain, stack-based conflict resolution, Row.create) is a valid matching (labels exist, strictly ascending reference, strictly monotone query per strand, non-empty when it has a pair), '
-             'and its listing order is already sorted; the verified checker valid_rowb (sound and complete) is evaluated INSIDE Coq on every row the implementation returns, next to the pipeline model correspondence '
+             'and its listing order is already sorted; C01_run_rows_valid: every non-joined row of every output file of the run model (first pass, second pass incl. fragments with label-number offsets, all modes) is such a matching of labels of its reference and of the WHOLE query; the verified checker valid_rowb (sound and complete) is evaluated INSIDE Coq on every row the implementation returns, next to the pipeline model correspondence '
              '(Aligner.align cases and the candidates of real end-to-end runs captured through COMA\'s extension mechanism); every record of every XMAP file of the four modes is checked from the file text. '
              'Joined rows of the multi-pass modes are NOT covered by the theorem (open finding, DESIGN.md 10.4); they are decided per record by the checker/oracle.',
         note=NOTE + 'End-to-end runs: Program(args, extensions) in subprocesses; independent CMAP/XMAP text parsers.', design='6 (C01)', technique='verified checker (Coq) evaluated on implementation outputs + pipeline correspondence + end-to-end oracle'),
@@ -58,12 +58,12 @@ CLAIMED = {
         technique='Coq proof (generic DP optimality instantiated at Q) + exhaustive/random differential correspondence + brute-force oracle'),
     'C16': dict(
         text='Theorems in coq/props/C16.v over the models of vectorisePositions (generator with early return), blur, toRelativeGenomicPositions, createPeaks cut and selectPeaks: bit i set iff a label in bin i, '
-             'labels within [start,end] covered, blur length/bit characterisation, bin centre within res/2, top-N (descending, stable, nothing better left out), per-correlation argpartition cut harmless for any admissible cut (section argument, not an axiom). '
+             'labels within [start,end] covered, blur length/bit characterisation, bin centre within res/2, top-N (descending, stable, nothing better left out), per-correlation argpartition cut harmless for any admissible cut (section argument, not an axiom); exact model of scipy.correlate(valid) incl. its operand swap, bounds, maximum iff the query vector is covered, normalising factor. '
              'Tie: exhaustive small vectors/blurs/peak lists + random, model in Coq vs the real functions.',
         note=NOTE + 'numpy argpartition is an arbitrary admissible cut; heights/scores integer valued.', design='6 (C16)', technique='Coq proof + exhaustive small-case correspondence + oracle'),
     'C18': dict(
         text='Theorems in coq/props/C18.v over a text-level model of XmapReader.writeAlignments/readAlignments: number codecs (tenths, hundredths, truncation toward zero), pair-list codec, tab split/join, single line and whole file round trip '
-             'for any number of rows incl. 0 and 1, both strands, AlignedRest either; HitEnum text parses back to the runs. Tie: real writer text vs model text byte-wise on data lines; real reader vs model reader; Python round-trip oracle.',
+             'for any number of rows incl. 0 and 1, both strands, AlignedRest either; HitEnum text parses back to the runs; C18_run_files_readable: every output file of the run model without joined rows (and the main files provided their joined rows are valid matchings) satisfies the round-trip hypothesis, so the reader returns one alignment per record with the expected fields. Tie: real writer text vs model text byte-wise on data lines; real reader vs model reader; Python round-trip oracle.',
         note=NOTE + 'pandas dtype inference / NA handling relied on is listed in model/Xmap.v; values with one (coordinates) or two (confidence) decimals.', design='6 (C18)', technique='Coq codec proofs + differential correspondence on real writer/reader + oracle'),
     'C19': dict(
         text='Theorems in coq/props/C19.v over the model of AlignmentComparer/AlignmentRowComparer with difflib ratio as a Section variable (range, reflexivity; positivity symmetry for the swap clause): key partition and counts, bounds, reflexivity for every alignment incl. empty pair lists, swap. '
@@ -73,13 +73,13 @@ CLAIMED = {
     'C06': dict(
         text='PARTIAL. coq/props/C06.v proves the deterministic half for all maps with neighbouring labels > 2*delta apart, all windows, both strands, any seed within delta of the true diagonal: '
              'the pairing returns exactly the true pairs each with |offset| = |seed - true| <= delta and only unpaired reference labels around them, the factory returns one segment holding all pairs, the row lists the true pairs '
-             'and its HitEnum is nM (default parameters satisfy the side conditions for every n >= 2); bin centre within half a resolution. NOT provable in this family: that FFT cross-correlation + scipy.find_peaks put a seed within delta of the '
-             'true diagonal and that this candidate wins (floating point, plateau dependent) — that hypothesis is MEASURED by the end-to-end oracle on planted queries in all four modes (exact pairs, strand, nM, |queryShift| <= 200 from the captured winning candidate).',
+             'and its HitEnum is nM (default parameters satisfy the side conditions for every n >= 2); bin centre within half a resolution. Seeding, in exact arithmetic (model/Correlate.v: exact integer cross-correlation of the blurred bit vectors, normalising factor as a rational): for a planted copy on the resolution grid the true lag is a global maximum of the correlation and the normalised correlation there is exactly 1 (C06_true_lag_is_global_max, C06_true_lag_window_normalised); off the grid only a bound holds and the full claim is refuted by a counterexample (C06_true_lag_any_offset_partial, C06_off_lattice_not_max). NOT provable in this family: FFT rounding and scipy.find_peaks plateau/edge handling, i.e. that a seed within delta of the '
+             'true diagonal is actually selected and that this candidate wins — that hypothesis is MEASURED by the end-to-end oracle on planted queries in all four modes (exact pairs, strand, nM, |queryShift| <= 200 from the captured winning candidate).',
         note=NOTE + 'numpy/scipy seeding numerics are outside the model; multi-peak winning candidates are measured only.', design='6 (C06), 10.4', technique='Coq proof of the conditional core + measured seeding hypothesis (end-to-end planted queries) + pipeline correspondence'),
     'C04': dict(
         text='Theorems in coq/props/C04.v for ALL parameter values, maps, seed-peak lists, both strands: pair score = SP - DPU*|offset|, unpaired = SU; every segment reported by the model of Aligner.align has score = sum of its positions and its '
              'positions are configured-score images of the engine output of ITS OWN peak (nothing re-scored through factory, chain, slice, __sub__, resolver); confidence = recomputed double sum (also from raw label positions; also for joined rows); '
-             'offsets follow the formula and are <= DMAX; no label twice inside a segment; no label inside a segment span unaccounted for (C04_no_gap, via the sub-run lift through the resolver loop). '
+             'offsets follow the formula and are <= DMAX; no label twice inside a segment; no label inside a segment span unaccounted for (C04_no_gap, via the sub-run lift through the resolver loop); C04_run_confidence lifts the confidence statement to every non-joined row of the run model. '
              'Tie: Aligner.align stream with non-default parameters; end-to-end CLI runs with non-default -sp/-dp/-su/-d/-ms/-bs whose captured candidates are re-scored from the CMAP text and replayed through the model (wrong wiring shows as disagreement).',
         note=NOTE + 'getScoredPosition raising for su > 0 and the factory raising for ms <= 0 are not modelled (parameter grid keeps su <= 0 < ms).', design='6 (C04)', technique='Coq proof (score invariant through every constructor) + pipeline and end-to-end correspondence + independent re-scoring oracle'),
     'C05': dict(
@@ -98,13 +98,13 @@ CLAIMED = {
         note=NOTE + 'XmapEntryID is excluded from "the record" (it is a running number).', design='6 (C10)', technique='Coq proof (locality of every grouping step; erasure of the source counter) + end-to-end variant comparison'),
     'C11': dict(
         text='PARTIAL. coq/props/C11.v proves the deterministic half: positions_with_ids of the mirror image on the other strand = renumbered labels; pairing commutes with renumbering under the no-tie hypothesis (which holds on a lattice with 2d < step); scoring, factory, chain, conflict step, resolver, Aligner.align, Row.create (same reference span and confidence, start/end exchanged) and HitEnum commute with any injective renumbering; '
-             'C11_align_lattice quantifies over all lattice inputs and ANY seed peaks. NOT provable here: that q on + and mirror(q) on - receive the same seeds (bit-vector reversal, FFT, find_peaks, top-N) — exercised by the end-to-end oracle on lattice data sets (separate mode), with the failing stage named if it ever differs.',
+             'C11_align_lattice quantifies over all lattice inputs and ANY seed peaks. Seeding in exact arithmetic: on the lattice getSequence(mirror q, -) = getSequence(q, +), hence the exact correlations (primary and refined, incl. normalisation and exceptions) coincide (C11_sequence_mirror, C11_seeding_mirror); off the lattice they differ (example). NOT provable here: FFT rounding and find_peaks/top-N selection on equal exact correlations — exercised by the end-to-end oracle on lattice data sets (separate mode), with the failing stage named if it ever differs.',
         note=NOTE + 'Seeding numerics outside the model.', design='6 (C11), 10.4', technique='Coq proof (renumbering commutes with every stage) + pipeline correspondence on mirrored pairs + end-to-end mirror oracle'),
     'C02': dict(
         text='Theorems in coq/props/C02.v over row_create / positions_with_ids (with label-number offset) / unaligned_fragments / trim / the writer model: RefStartPos/RefEndPos = coordinates of the first/last listed reference label; QryStartPos/QryEndPos = offsets of the outermost listed query labels '
-             'from the first label on + and from the last label on - with the stated order; QryLen = last-first+1 of the query as read (also for fragments), RefLen = truncated end marker; ids of the input maps; XmapEntryID of the k-th line is k; Orientation +/-; second-pass label numbers are whole-query numbers on both strands (prefix and suffix fragments); whole record text = spec. '
+             'from the first label on + and from the last label on - with the stated order; QryLen = last-first+1 of the query as read (also for fragments), RefLen = truncated end marker; ids of the input maps; XmapEntryID of the k-th line is k; Orientation +/-; second-pass label numbers are whole-query numbers on both strands (prefix and suffix fragments); whole record text = spec; C02_run_records lifts all of it to every non-joined row of every output file of the run model (Coordinator.program_run, any seeding function), with the pairs_from hypothesis DERIVED from the pipeline. '
              'Tie: real Aligner.align rows, real writer byte-wise, getUnalignedFragments vs model, captured candidates of real runs, four-mode end-to-end text oracle with independent CMAP/XMAP parsers (incl. one data set with arbitrary one-decimal coordinates).',
-        note=NOTE + 'That listed pairs consist of getPositionsWithSiteIds labels is a hypothesis of the record theorems (justified by C12_within; evaluated by a boolean checker on every model row).', design='6 (C02)',
+        note=NOTE + 'Joined rows are excluded from the run-level record theorem (open finding F10).', design='6 (C02)',
         technique='Coq proof + differential correspondence (rows, writer, fragments, captured candidates) + end-to-end text oracle'),
     'C09': dict(
         text='PARTIAL. coq/props/C09.v proves the logic that makes the output schedule independent: the only cross-task state is the per-process iteration counter, which reaches only the `source` field of pairs; every stage (pairing ... resolver, row, fragments, filters, join, '
@@ -114,7 +114,7 @@ CLAIMED = {
         technique='Coq proof (source-erasure noninterference over all schedules) + pipeline correspondence with different counters + end-to-end multi-worker byte comparison'),
     'C07': dict(
         text='PARTIAL. coq/props/C07.v covers the modelled glue: every segment Aligner.align builds (SU <= 0 < MS) starts and ends on a pair, so all accessors, the pre-order and the chain are total; slice raises exactly when its kept window consists of poppable positions only, resolve_pair raises only through slice, the first resolution step between factory segments is total; '
-             'C07_aligner_total: the model of Aligner.align never raises for SU <= 0 < MS, any maps, any seed-peak list, both strands; cigarString is total on valid matchings; the reader is total on every file the writer produces incl. zero records (re-export of C18); regression witnesses for the repaired defects (join IndexError before F8, pair-less joined row before F9) next to theorems that the current code handles them. NOT expressible in a Gallina model: exceptions raised inside numpy/scipy/pandas, memory, signals — exercised by a degenerate-input corpus through the real CLI in every mode, '
+             'C07_run_total: Coordinator.program_run (both passes, fragments, filters, join, all modes) never raises for any seeding function naming sorted references, trimmed queries with distinct ids, SU <= 0 < MS; C07_aligner_total: the model of Aligner.align never raises for SU <= 0 < MS, any maps, any seed-peak list, both strands; cigarString is total on valid matchings; the reader is total on every file the writer produces incl. zero records (re-export of C18); regression witnesses for the repaired defects (join IndexError before F8, pair-less joined row before F9) next to theorems that the current code handles them. NOT expressible in a Gallina model: exceptions raised inside numpy/scipy/pandas, memory, signals — exercised by a degenerate-input corpus through the real CLI in every mode, '
              'parameter corners, read-back of every written file with the project reader, and a crash-search stream over first pass -> fragments -> second pass -> join -> writer -> reader.',
         note=NOTE + 'Findings F8, F9, F11 were repaired in /repo (fix: commits) and are listed in known_findings.json with their witnesses (now regression cases in corpus/C07).', design='6 (C07), 10.2', technique='Coq totality proofs for the modelled glue + refutation witnesses + degenerate end-to-end corpus and crash-search oracle'),
 }
